@@ -22,3 +22,10 @@ def attrs(**kw):
 
 def klass(name, **kw):
     REG.classes.setdefault(name, {}).update(kw)
+
+
+def classref(name):
+    """A class object passed around as a value (e.g. TimeInterval given to the Cython scan)."""
+    import z3
+    from .types import V, Obj
+    return V(Ref("type"), [z3.Const("cls!" + name, Obj)])
